@@ -841,11 +841,16 @@ impl<T> FastVec<T> {
         crate::zipora_verify_le!(self.len, self.cap);
 
         if src.is_empty() {
+            // The vector becomes a copy of `src` (T: Copy, nothing to drop)
+            self.len = 0;
             return Ok(());
         }
 
-        // Ensure we have enough capacity
-        self.ensure_capacity(src.len())?;
+        // Ensure we have enough capacity (a source shorter than the current
+        // length already fits; ensure_capacity() requires min_cap >= len)
+        if src.len() > self.cap {
+            self.ensure_capacity(src.len())?;
+        }
 
         // Verify state after capacity adjustment
         crate::zipora_verify_ge!(self.cap, src.len());
